@@ -176,7 +176,7 @@ func (in *Interp) recordHashApp(name string, t *Term) {
 func (in *Interp) pairAxioms(k, mode int) *Term {
 	st := in.st
 	l, _ := in.extra["hashapps"].([]hashAppRec)
-	ax := st.BNot(st.Eq(l[k].t, st.Const(l[k].t.w, 0))) // an ideal hash never outputs zero
+	ax := in.hashNonZero(l[k].t)
 	P := st.ConstBig(256, feltP)
 	lim := st.Const(256, 251)
 	for i := 0; i < k; i++ {
@@ -208,7 +208,7 @@ func (in *Interp) collisionFreeAxioms() *Term {
 	l, _ := in.extra["hashapps"].([]hashAppRec)
 	ax := st.True
 	for i := 0; i < len(l); i++ {
-		ax = st.BAnd(ax, st.BNot(st.Eq(l[i].t, st.Const(l[i].t.w, 0)))) // an ideal hash never outputs zero
+		ax = st.BAnd(ax, in.hashNonZero(l[i].t))
 		for j := i + 1; j < len(l); j++ {
 			if l[i].name != l[j].name || len(l[i].t.args) != len(l[j].t.args) {
 				// same hash function applied to inputs of different length: no collision either
@@ -249,6 +249,19 @@ func (in *Interp) nodeHashSeparationAxioms() *Term {
 			far := st.BAnd(st.Cmp(OpULt, lim, d), st.Cmp(OpULt, lim, st.Bin(OpSub, P, d)))
 			ax = st.BAnd(ax, st.BOr(st.Eq(a, b), far))
 		}
+	}
+	return ax
+}
+
+// hashNonZero: an ideal hash never outputs zero, and (field-sized hashes) never a value within 252 of
+// the modulus either: an edge-node hash H(child, path) + length (length <= 251, mod P) is then never
+// zero, i.e. never reads as "empty".
+func (in *Interp) hashNonZero(t *Term) *Term {
+	st := in.st
+	ax := st.BNot(st.Eq(t, st.Const(t.w, 0)))
+	if t.w == 256 {
+		lim := new(big.Int).Sub(feltP, big.NewInt(252))
+		ax = st.BAnd(ax, st.Cmp(OpULt, t, st.ConstBig(256, lim)))
 	}
 	return ax
 }
